@@ -145,6 +145,7 @@ harness! { fn c10_expand_arbitrary_len3_seed() unwind 40 { expand_arbitrary(3, t
 harness! { fn c10_expand_arbitrary_len4_seed() unwind 40 { expand_arbitrary(4, true, 0) }}
 harness! { fn c10_expand_arbitrary_len1_noseed() unwind 40 { expand_arbitrary(1, false, 0) }}
 harness! { fn c10_expand_arbitrary_len0() unwind 40 { expand_arbitrary(0, true, 0) }}
+harness! { fn c10_expand_arbitrary_len8_noseed() unwind 28 { expand_arbitrary(8, false, 0) }}
 
 /// Fresh buffer path of key generation: marker, layout, and the MAC written by hss_finalize_aux_data
 /// is the same HMAC over the same area (so what keygen writes is what the guard above accepts).
